@@ -230,6 +230,9 @@ def extract(repo):
                     for k, v in zip(st.value.keys, st.value.values):
                         if isinstance(k, ast.Constant) and isinstance(v, ast.Constant):
                             d[k.value] = v.value
+                    if sorted(map(str, d)) != ["compression", "compression_opts"] or len(d) != len(st.value.keys):
+                        raise ExtractError("H5DataSet.__init__: the dataset creation arguments for compression are no "
+                                           "longer exactly compression + compression_opts")
                     filt, level = d.get("compression"), d.get("compression_opts")
     if not isinstance(filt, str) or not isinstance(level, int) or isinstance(level, bool):
         raise ExtractError("H5DataSet.__init__: `if compression: comprargs = {...}` not recognised")
